@@ -655,7 +655,8 @@ class OrConstraint(AbstractConstraint):
             elif isinstance(constraint, Constraint):
                 inverted = id(constraint.invert())
                 if inverted in processed:
-                    continue
+                    # A OR ~A is always true, so it constrains nothing.
+                    return NULL_CONSTRAINT
             final.append(constraint)
 
         if not final:
